@@ -69,7 +69,12 @@ def field_value(rng, p):
 def field_pair(rng, p):
     """(a, b, pairclass): related operand pairs"""
     a, ca = field_value(rng, p)
-    k = rng.randrange(13)
+    k = rng.randrange(14)
+    if k == 13:
+        got = mid_reduction_pair(rng, p, rng.choice(['second-overflow', 'k0-pending-max']))
+        if got:
+            return (got[0], got[1], 'mid-reduction') if rng.random() < 0.5 else (got[1], got[0], 'mid-reduction')
+        k = rng.randrange(9)
     if k == 9:
         x, y = mont_digit_pair(rng, p)
         return x, y, 'mont-digits'
@@ -496,3 +501,126 @@ def identity(prog, rng, which, rep):
         b = prog.let(g + '.lit', rm.jac_lit(F, P, lb))[0]
         return prog.let(g + '.sub', a, b)[0]
     raise ValueError(rep)
+
+
+# --------------------------------------------------------------------------- mid-reduction events by 2-D lattice reduction
+def _gauss_reduce(u, v):
+    """Lagrange-Gauss reduction of a 2-D integer lattice basis"""
+    def n2(a):
+        return a[0] * a[0] + a[1] * a[1]
+    if n2(u) < n2(v):
+        u, v = v, u
+    while True:
+        # u longer; reduce u by v
+        d = n2(v)
+        if d == 0:
+            return v, u
+        m = (2 * (u[0] * v[0] + u[1] * v[1]) + d) // (2 * d)
+        u = (u[0] - m * v[0], u[1] - m * v[1])
+        if n2(u) >= n2(v):
+            return v, u
+        u, v = v, u
+
+
+def top_limb_solver(A, c, tau, tmax=1 << 64):
+    """t in [0, tmax) such that ((c + A*t) mod 2^256) >> 192 == tau, or None. (closest-vector problem in the lattice
+    {(t*2^128, A*t mod 2^256)}, solved by Gauss reduction + Babai rounding over the nine neighbours)"""
+    S = 1 << 128
+    T0 = ((tau << 192) - c) % R
+    g1, g2 = _gauss_reduce((S, A % R), (0, R))
+    tx, ty = (tmax // 2) * S, T0 + (1 << 191)
+    det = g1[0] * g2[1] - g1[1] * g2[0]
+    if det == 0:
+        return None
+    # (x, y) with x*g1 + y*g2 = target, rounded
+    x = (tx * g2[1] - ty * g2[0])
+    y = (g1[0] * ty - g1[1] * tx)
+    x0, y0 = (2 * x + det) // (2 * det), (2 * y + det) // (2 * det)
+    for dx in (0, -1, 1, -2, 2):
+        for dy in (0, -1, 1, -2, 2):
+            px = (x0 + dx) * g1[0] + (y0 + dy) * g2[0]
+            if px % S:
+                continue
+            t = px // S
+            if 0 <= t < tmax and ((c + A * t) % R) >> 192 == tau:
+                return t
+    return None
+
+
+def mid_reduction_pair(rng, p, want):
+    """(a, b) whose Montgomery product drives a chosen event in the MIDDLE of the reduction (row 1 or 2), verified with the
+    white-box replica: want in {'second-overflow', 'k0-pending-max'}. Returns field values or None."""
+    from . import paths
+    inv = (-pow(p, -1, 1 << 64)) % (1 << 64)
+    m = p
+    for _ in range(60):
+        row = rng.choice([1, 2])
+        A = rng.randrange(p // 2, p) | 1
+        nlow = row + 1                                  # limbs of B that determine k_0..k_row
+        Blow = rng.getrandbits(64 * nlow) | 1
+        if want == 'k0-pending-max':
+            # choose the top low limb so that quotient digit `row` is zero: limb `row` of (A*Blow + sum k_j m 2^(64j)) == 0
+            base = Blow & ((1 << (64 * row)) - 1)
+            S0 = A * base
+            acc = S0
+            for j in range(row):
+                k = ((acc >> (64 * j)) * inv) & M64
+                acc += k * m << (64 * j)
+            need = (-(acc >> (64 * row))) & M64          # A_0 * x = need (mod 2^64)
+            x = need * pow(A & M64, -1, 1 << 64) & M64
+            Blow = base | (x << (64 * row))
+        # quotient digits k_0..k_row from the low limbs
+        acc = A * Blow
+        W = 0
+        for j in range(row + 1):
+            k = ((acc >> (64 * j)) * inv) & M64
+            acc += k * m << (64 * j)
+            W += k * m << (64 * j)
+        # remaining limb t of B at position nlow: limb (4+row) of (A*B [+ W]) must be 0 (second overflow: exact wrap) or 2^64-1
+        shift = 64 * nlow
+        base_val = A * Blow + (W if want == 'second-overflow' else 0)
+        tau = 0 if want == 'second-overflow' else M64
+        # limb (4+row) of base_val + A*t*2^shift  ==  top limb of ((base_val >> (64*(row+1) + shift - 64*nlow ...)))
+        # work modulo 2^(64*(5+row)) and look at its top limb: divide everything by 2^(64*(1+row))
+        cut = 64 * (1 + row)
+        c = (base_val >> cut) % R
+        Ashift = (A << shift) >> cut if shift >= cut else None
+        if Ashift is None:
+            continue
+        t = top_limb_solver(Ashift % R, c, tau)
+        if t is None:
+            continue
+        B = Blow | (t << shift)
+        if B >= p:
+            continue
+        ev = paths.mul_events(A, B, p)
+        name = ('overflow-by-pending-carry-only@%d' % row) if want == 'second-overflow' else ('k=0&pending&high-limb=max@%d' % row)
+        if name in ev:
+            return rm.unmont(A, p), rm.unmont(B, p), name
+    return None
+
+
+def mid_reduction_square(rng, p):
+    """a field value whose Montgomery SQUARE overflows the high limb in row 1 of the reduction by the pending carry alone
+    (A = A_0 + A_1*2^64 + t*2^192 with t solved by the lattice solver; verified with the white-box replica), or None"""
+    from . import paths
+    inv = (-pow(p, -1, 1 << 64)) % (1 << 64)
+    for _ in range(80):
+        a = rng.getrandbits(128) | 1
+        acc = a * a
+        W = 0
+        for j in range(2):
+            k = ((acc >> (64 * j)) * inv) & M64
+            acc += k * p << (64 * j)
+            W += k * p << (64 * j)
+        c = ((a * a + W) >> 128) % R
+        t = top_limb_solver((2 * a << 64) % R, c, 0, tmax=(p >> 192))
+        if t is None:
+            continue
+        A = a + (t << 192)
+        if A >= p:
+            continue
+        ev = paths.mul_events(A, A, p)
+        if 'overflow-by-pending-carry-only@1' in ev:
+            return rm.unmont(A, p)
+    return None
